@@ -5,6 +5,8 @@ lemmas live in Octave/Lemmas.  What is proved here and what is only validated by
 check is listed in notes/C04.md and in the evidence file.
 -/
 import Octave.Lemmas.Quoted
+import Octave.Lemmas.Bare
+import Octave.Lemmas.Step
 import Octave.Props.Facts
 namespace Octave.C04
 open Octave Lexer Emitter Scan
@@ -50,5 +52,66 @@ theorem C04_reserved_quoted (s : Str) (h : hasReservedPrefix s = true) (hne : s 
       · simp [h]
 
 example : needsQuotes "true.".toList = true ∧ needsQuotes "a→vs.b".toList = true ∧ needsQuotes "nullable".toList = false := by decide
+
+/-- `needs_quotes(s) = False` implies there is no reserved-word prefix (the F9/F13/F14 guard sits before every
+"bare" exit of `needs_quotes`). -/
+theorem C04_bare_no_reserved_prefix (s : Str) (h : needsQuotes s = false) : hasReservedPrefix s = false := by
+  cases hr : hasReservedPrefix s with
+  | false => rfl
+  | true =>
+    exfalso
+    have : needsQuotes s = true := by
+      unfold needsQuotes
+      split
+      · rfl
+      · split
+        · rfl
+        · split
+          · rfl
+          · simp [hr]
+    rw [h] at this; cases this
+
+/-- **Bare identifiers survive.**  Whenever the emitter leaves an identifier-shaped string bare, the lexer reads the
+emitted text back as ONE IDENTIFIER token carrying exactly that string and consuming exactly that text, with no
+normalisation receipt — for every such string (any length), every environment, every lexer state that is not at
+offset 0 or at a fence, both lexer modes, and every continuation allowed after a bare value (`TermOK`: end of
+input, or a char that neither extends an identifier nor opens an annotation tail — newline, comma, `]`, space). -/
+theorem C04_bare_identifier_step (env : Env) (lenient : Bool) (st : LState) (s rest : Str)
+    (hq : needsQuotes s = false) (hid : isIdentifierText s = true) (hterm : TermOK env rest)
+    (hspan : atSpanStart st = false) (hpos : st.pos ≠ 0) :
+    emitStr s = s ∧
+    step env lenient st (emitStr s ++ rest) = .ok ({ st with
+        pos := st.pos + s.length, prev := s.getLast?.orElse (fun _ => st.prev), col := st.col + s.length,
+        toks := { type := .identifier, value := .str s, line := st.line, col := st.col } :: st.toks,
+        repairs := (identifierRepairs s st.line st.col).reverse ++ st.repairs }, rest) := by
+  have he : emitStr s = s := by simp [emitStr, hq]
+  refine ⟨he, ?_⟩
+  rw [he]
+  exact bare_identifier_step env lenient st s rest hid (C04_bare_no_reserved_prefix s hq) hterm hspan hpos
+
+/-- non-vacuity: identifier-shaped strings that start like a reserved word but are not one, and the separators
+the emitter prints after a value. -/
+example : needsQuotes "truex".toList = false ∧ isIdentifierText "truex".toList = true ∧
+    needsQuotes "null_able.v-1".toList = false ∧ isIdentifierText "null_able.v-1".toList = true := by decide
+example : TermOK Env.ascii "\n===END===\n".toList ∧ TermOK Env.ascii ",b]".toList ∧ TermOK Env.ascii "]".toList ∧ TermOK Env.ascii [] := by
+  refine ⟨?_, ?_, ?_, ?_⟩ <;> intro d hd <;> simp at hd <;> subst hd <;> decide
+
+/-- **Quoted strings survive (one lexer step).**  For EVERY string `s` (any code points, any length): one step of the
+lexer on the quoted lexeme the emitter writes, followed by any continuation that does not begin with a double quote,
+appends exactly one STRING token whose value is `s` at the step's line/column, consumes exactly the lexeme and
+records no receipt. -/
+theorem C04_quoted_step (env : Env) (lenient : Bool) (st : LState) (s rest : Str)
+    (hrest : rest.head? ≠ some '"') (hspan : atSpanStart st = false) (hpos : st.pos ≠ 0) :
+    ∃ st', step env lenient st (quoted s ++ rest) = .ok (st', rest)
+      ∧ st'.toks = { type := .string, value := .str s, line := st.line, col := st.col } :: st.toks
+      ∧ st'.repairs = st.repairs := by
+  have hpos' : (st.pos == 0) = false := by simpa using hpos
+  have hm := C04_quoted_token env st.prev s rest hrest
+  rw [← hpos'] at hm
+  have h := pattern_step env lenient st '"' (escape s ++ ['"'] ++ rest)
+    { type := .string, value := .str s, text := quoted s, rest := rest } hspan (by decide)
+    (by simpa [quoted] using hm) (by simp) (by simp)
+  obtain ⟨st', h1, h2, h3⟩ := h
+  exact ⟨st', by simpa [quoted] using h1, h2, h3⟩
 
 end Octave.C04
